@@ -974,7 +974,7 @@ func (s *c19Sys) afterCall(t *c19Thread, c CallInfo, before *c19Snap) {
 			if listedOthers > 0 {
 				s.mon("C19:marker-removed-with-other-usage", fmt.Sprintf("reconcile of Usage %s removed the in-use label of %s although %d other Usage(s) it had listed name that resource", t.name, k, listedOthers))
 			}
-			if listedOthers == 0 && others > 0 {
+			if t.didList && listedOthers == 0 && others > 0 {
 				// every other Usage of k appeared after this reconcile counted: its count was out of date
 				s.stale[k] = true
 			}
